@@ -147,6 +147,23 @@ let run_one oc cfg (pl : (z list * z list) option) eps prog =
   let extra = match e with Panicked p -> ":" ^ psite_str p | _ -> "" in
   Printf.fprintf oc "run %s %s%s |%s\n" cfg (ending_str e) extra (Buffer.contents b)
 
+let sending_str = function
+  | SDone -> "ok"
+  | SRtErr DivZero -> "err:Division_by_zero"
+  | SRtErr StackOv -> "err:Stack_overflow"
+  | SRtErr IdxOob -> "err:Index_out_of_bounds"
+  | SRtErr TypeMis -> "err:Type_mismatch"
+  | SRtErr InvIdx -> "err:Invalid_index"
+  | SIsStuck -> "stuck"
+  | SOutOfFuel -> "fuel"
+  | SUnsupported -> "unsupported"
+
+let run_spec_one oc eps prog =
+  let (outs, e) = run_spec eps (Lazy.force fuel) prog in
+  let b = Buffer.create 256 in
+  List.iter (fun v -> Buffer.add_char b ' '; value_repr b v) outs;
+  Printf.fprintf oc "run s %s |%s\n" (sending_str e) (Buffer.contents b)
+
 let lang_mode eps_hex inp outp =
   let oc = open_out outp in
   let eps = of_bits (z_of_hex eps_hex) in
@@ -173,7 +190,8 @@ let lang_mode eps_hex inp outp =
                          List.map (fun t -> z_of_int (int_of_string t)) fs)
                | _ -> None) in
              run_one oc "p" pl eps p;
-             run_one oc "n" None eps p)
+             run_one oc "n" None eps p;
+             run_spec_one oc eps p)
     | "end" :: id :: _ -> Printf.fprintf oc "end %s\n" id
     | _ -> ()) (read_lines inp);
   close_out oc
